@@ -267,6 +267,7 @@ def generic_oracles(script, out):
         msk = parts[1] if len(parts) > 1 else None
         if ob == 'ERR' and last_msk is not None and msk != last_msk:
             v.append((ln, 'C10', 'master key changed by a failed call'))
+        if ob == 'ERRMOD': v.append((ln, 'C10', 'user key changed (its serialized bytes differ) by a refused refresh'))
         if f[0] in ('RF', 'RFBAD', 'RFX') and ob == 'ERR' and len(parts) > 2 and nusk:
             k = int(f[1]) % nusk
             if k in last_usk and last_usk[k] != parts[2]: v.append((ln, 'C10', 'user key changed by a failed refresh'))
